@@ -1,4 +1,6 @@
 import Pyunicorn.Lemmas.LineDist
+import Pyunicorn.Lemmas.LineDistSeq
+import Pyunicorn.Lemmas.LineDistResample
 /-!
 # C08 — RQA line statistics are exact run-length counts of the matrix
 
@@ -403,6 +405,319 @@ theorem lam_bounds (R : Mat) (n vmin : Nat) :
     (scalars vmin (vertline R n)).ratioDen = countIn (rowsOf R true n) := by
   simp only [scalars, partialWsum_one]
   exact ⟨partialWsum_le_wsum _ _, vert_accounts_black R n⟩
+
+/-! ## Round 3 — the kernel regenerated from the source text
+
+`translate/gen_C08.py` rewrites `Generated/StructC08.lean` from `numerics.pyx` on every run:
+`innerBody` / `afterInner` / `lineDist` are the statements of `_line_dist` in source order, the
+coordinate helpers, `metric_supremum` and the nine wrappers are the source's own expressions.
+The theorems below are *about those generated definitions*; the driver executes them. -/
+section Generated
+open Pyunicorn.Generated
+open Pyunicorn.Recurrence (V ltV fixedThreshold missingMask Metric)
+
+theorem cellsOf_fun (R : Mat) (M : List Bool) (b : Bool) :
+    cellsOf R M b = fun cs => cs.map fun (I, j) => ((accR R (I : Int) (j : Int) == b),
+          (accM M (I : Int) || accM M (j : Int))) := funext (cellsOf_eq R M b)
+
+theorem gen_vertline_eq (R : Mat) (n : Nat) :
+    StructC08._vertline_dist n (List.replicate n 0) (accR R) = vertline R n := by
+  unfold StructC08._vertline_dist vertline
+  rw [lineDist_kernel]
+  simp only [Bool.false_eq_true, if_false, lineVal, if_true]
+  rw [vert_subs n (fun I j => (accR R I j == true, (false || false)))]
+  simp [cellsOf_fun, accM_nil]
+
+theorem gen_white_eq (R : Mat) (n : Nat) :
+    StructC08._white_vertline_dist n (List.replicate n 0) (accR R) = whiteVertline R n := by
+  unfold StructC08._white_vertline_dist whiteVertline
+  rw [lineDist_kernel]
+  simp only [Bool.false_eq_true, if_false, lineVal, if_true]
+  rw [vert_subs n (fun I j => (accR R I j == false, (false || false)))]
+  simp [cellsOf_fun, accM_nil]
+
+theorem gen_diagline_eq (R : Mat) (n : Nat) :
+    StructC08._diagline_dist n (List.replicate n 0) (accR R) = diagline R n := by
+  unfold StructC08._diagline_dist diagline
+  rw [lineDist_kernel]
+  simp only [Bool.false_eq_true, if_false, lineVal, if_true]
+  rw [diag_subs n (fun I j => (accR R I j == true, (false || false)))]
+  simp [cellsOf_fun, accM_nil]
+
+theorem gen_vertline_mv_eq (R : Mat) (M : List Bool) (n : Nat) :
+    StructC08._vertline_dist_missingvalues n (List.replicate n 0) (accR R) (accM M)
+      = vertlineMV R M n := by
+  unfold StructC08._vertline_dist_missingvalues vertlineMV
+  rw [lineDist_kernel]
+  simp only [Bool.false_eq_true, if_false, lineVal, if_true]
+  rw [vert_subs n (fun I j => (accR R I j == true, (accM M I || accM M j)))]
+  simp [cellsOf_fun]
+
+theorem gen_diagline_mv_eq (R : Mat) (M : List Bool) (n : Nat) :
+    StructC08._diagline_dist_missingvalues n (List.replicate n 0) (accR R) (accM M)
+      = diaglineMV R M n := by
+  unfold StructC08._diagline_dist_missingvalues diaglineMV
+  rw [lineDist_kernel]
+  simp only [Bool.false_eq_true, if_false, lineVal, if_true]
+  rw [diag_subs n (fun I j => (accR R I j == true, (accM M I || accM M j)))]
+  simp [cellsOf_fun]
+
+/-- the generated matrix-mode wrappers are run-length counts (composition with round 1) -/
+theorem gen_vertline_runs (R : Mat) (n : Nat) :
+    StructC08._vertline_dist n (List.replicate n 0) (accR R) = histOfRuns (rowsOf R true n) n := by
+  rw [gen_vertline_eq, vert_eq_runs]
+
+theorem gen_white_runs (R : Mat) (n : Nat) :
+    StructC08._white_vertline_dist n (List.replicate n 0) (accR R)
+      = histOfRuns (rowsOf R false n) n := by
+  rw [gen_white_eq, white_eq_runs]
+
+theorem gen_diagline_runs (R : Mat) (n : Nat) :
+    StructC08._diagline_dist n (List.replicate n 0) (accR R) = histOfRuns (diagsOf R n) n := by
+  rw [gen_diagline_eq, diag_eq_runs]
+
+/-! ### sequential mode = matrix mode, with the predicate computed, not assumed -/
+
+theorem vertCoords_lt (n : Nat) : ∀ cs ∈ vertCoords n, ∀ c ∈ cs, c.1 < n ∧ c.2 < n := by
+  intro cs hcs c hc
+  simp only [vertCoords, List.mem_map, List.mem_range] at hcs
+  obtain ⟨i, hi, rfl⟩ := hcs
+  simp only [List.mem_map, List.mem_range] at hc
+  obtain ⟨j, hj, rfl⟩ := hc
+  exact ⟨hi, hj⟩
+
+theorem diagCoords_lt (n : Nat) : ∀ cs ∈ diagCoords n, ∀ c ∈ cs, c.1 < n ∧ c.2 < n := by
+  intro cs hcs c hc
+  have : (c.1, c.2) ∈ (diagCoords n).flatten := List.mem_flatten.mpr ⟨cs, hcs, hc⟩
+  have := (diagCoords_mem n c.1 c.2).mp this
+  omega
+
+/-- all four sequential kernels against the matrix kernels on the stored matrix of
+`set_fixed_threshold` (C07's model), for every embedding, threshold and size -/
+private theorem seq_generic (emb : List (List V)) (eps : Rat) (dim : Nat) (mv : Bool)
+    (hdim : ∀ r ∈ emb, r.length = dim) (coords : List (List (Nat × Nat)))
+    (hc : ∀ cs ∈ coords, ∀ c ∈ cs, c.1 < emb.length ∧ c.2 < emb.length) (M : Int → Bool)
+    (hM : mv = true → M = accM (missingMask emb)) :
+    kernel mv (coords.map (·.map fun (c : Nat × Nat) =>
+        (lineVal (fun _ _ => false) (fun I j => StructC08.metric_supremum I j dim (accE emb))
+          (some eps) false true c.1 c.2, M c.1 || M c.2))) emb.length
+      = kernel mv (coords.map (·.map fun (c : Nat × Nat) =>
+        (lineVal (accR (fixedThreshold .supremum emb eps mv)) (fun _ _ => none) (some 0) true true
+          c.1 c.2, M c.1 || M c.2))) emb.length := by
+  apply kernel_map_congr
+  intro cs hcs c hcc
+  refine ⟨rfl, ?_⟩
+  intro hmiss
+  have hlt := hc cs hcs c hcc
+  simp only [lineVal, Bool.false_eq_true, if_false, if_true, accR, Int.toNat_natCast]
+  congr 1
+  apply near_eq_matrix emb eps dim mv hdim c.1 c.2 hlt.1 hlt.2
+  intro hmv
+  have h1 := hmiss hmv
+  rw [hM hmv] at h1
+  simpa [accM] using h1
+
+theorem seq_vertline_eq_matrix (emb : List (List V)) (eps : Rat) (dim : Nat)
+    (hdim : ∀ r ∈ emb, r.length = dim) :
+    StructC08._vertline_dist_sequential emb.length (List.replicate emb.length 0) (accE emb)
+        (some eps) dim
+      = StructC08._vertline_dist emb.length (List.replicate emb.length 0)
+          (accR (fixedThreshold .supremum emb eps false)) := by
+  unfold StructC08._vertline_dist_sequential StructC08._vertline_dist
+  rw [lineDist_kernel, lineDist_kernel]
+  simp only [Bool.false_eq_true, if_false]
+  rw [vert_subs emb.length (fun I j => (lineVal (fun _ _ => false)
+        (fun I j => StructC08.metric_supremum I j dim (accE emb)) (some eps) false true I j,
+        (false || false))),
+    vert_subs emb.length (fun I j => (lineVal (accR (fixedThreshold .supremum emb eps false))
+        (fun _ _ => none) (some 0) true true I j, (false || false)))]
+  exact seq_generic emb eps dim false hdim (vertCoords emb.length) (vertCoords_lt _)
+    (fun _ => false) (by simp)
+
+theorem seq_diagline_eq_matrix (emb : List (List V)) (eps : Rat) (dim : Nat)
+    (hdim : ∀ r ∈ emb, r.length = dim) :
+    StructC08._diagline_dist_sequential emb.length (List.replicate emb.length 0) (accE emb)
+        (some eps) dim
+      = StructC08._diagline_dist emb.length (List.replicate emb.length 0)
+          (accR (fixedThreshold .supremum emb eps false)) := by
+  unfold StructC08._diagline_dist_sequential StructC08._diagline_dist
+  rw [lineDist_kernel, lineDist_kernel]
+  simp only [if_true]
+  rw [diag_subs emb.length (fun I j => (lineVal (fun _ _ => false)
+        (fun I j => StructC08.metric_supremum I j dim (accE emb)) (some eps) false true I j,
+        (false || false))),
+    diag_subs emb.length (fun I j => (lineVal (accR (fixedThreshold .supremum emb eps false))
+        (fun _ _ => none) (some 0) true true I j, (false || false)))]
+  exact seq_generic emb eps dim false hdim (diagCoords emb.length) (diagCoords_lt _)
+    (fun _ => false) (by simp)
+
+theorem seq_vertline_mv_eq_matrix (emb : List (List V)) (eps : Rat) (dim : Nat)
+    (hdim : ∀ r ∈ emb, r.length = dim) :
+    StructC08._vertline_dist_sequential_missingvalues emb.length (List.replicate emb.length 0)
+        (accE emb) (some eps) dim (accM (missingMask emb))
+      = StructC08._vertline_dist_missingvalues emb.length (List.replicate emb.length 0)
+          (accR (fixedThreshold .supremum emb eps true)) (accM (missingMask emb)) := by
+  unfold StructC08._vertline_dist_sequential_missingvalues StructC08._vertline_dist_missingvalues
+  rw [lineDist_kernel, lineDist_kernel]
+  simp only [Bool.false_eq_true, if_false]
+  rw [vert_subs emb.length (fun I j => (lineVal (fun _ _ => false)
+        (fun I j => StructC08.metric_supremum I j dim (accE emb)) (some eps) false true I j,
+        (accM (missingMask emb) I || accM (missingMask emb) j))),
+    vert_subs emb.length (fun I j => (lineVal (accR (fixedThreshold .supremum emb eps true))
+        (fun _ _ => none) (some 0) true true I j,
+        (accM (missingMask emb) I || accM (missingMask emb) j)))]
+  exact seq_generic emb eps dim true hdim (vertCoords emb.length) (vertCoords_lt _)
+    (accM (missingMask emb)) (fun _ => rfl)
+
+theorem seq_diagline_mv_eq_matrix (emb : List (List V)) (eps : Rat) (dim : Nat)
+    (hdim : ∀ r ∈ emb, r.length = dim) :
+    StructC08._diagline_dist_sequential_missingvalues emb.length (List.replicate emb.length 0)
+        (accE emb) (some eps) dim (accM (missingMask emb))
+      = StructC08._diagline_dist_missingvalues emb.length (List.replicate emb.length 0)
+          (accR (fixedThreshold .supremum emb eps true)) (accM (missingMask emb)) := by
+  unfold StructC08._diagline_dist_sequential_missingvalues StructC08._diagline_dist_missingvalues
+  rw [lineDist_kernel, lineDist_kernel]
+  simp only [if_true]
+  rw [diag_subs emb.length (fun I j => (lineVal (fun _ _ => false)
+        (fun I j => StructC08.metric_supremum I j dim (accE emb)) (some eps) false true I j,
+        (accM (missingMask emb) I || accM (missingMask emb) j))),
+    diag_subs emb.length (fun I j => (lineVal (accR (fixedThreshold .supremum emb eps true))
+        (fun _ _ => none) (some 0) true true I j,
+        (accM (missingMask emb) I || accM (missingMask emb) j)))]
+  exact seq_generic emb eps dim true hdim (diagCoords emb.length) (diagCoords_lt _)
+    (accM (missingMask emb)) (fun _ => rfl)
+
+/-- sequential vertical-line histogram = run-length count of the stored matrix's rows -/
+theorem seq_vertline_runs (emb : List (List V)) (eps : Rat) (dim : Nat)
+    (hdim : ∀ r ∈ emb, r.length = dim) :
+    StructC08._vertline_dist_sequential emb.length (List.replicate emb.length 0) (accE emb)
+        (some eps) dim
+      = histOfRuns (rowsOf (fixedThreshold .supremum emb eps false) true emb.length)
+          emb.length := by
+  rw [seq_vertline_eq_matrix emb eps dim hdim, gen_vertline_runs]
+
+theorem seq_diagline_runs (emb : List (List V)) (eps : Rat) (dim : Nat)
+    (hdim : ∀ r ∈ emb, r.length = dim) :
+    StructC08._diagline_dist_sequential emb.length (List.replicate emb.length 0) (accE emb)
+        (some eps) dim
+      = histOfRuns (diagsOf (fixedThreshold .supremum emb eps false) emb.length) emb.length := by
+  rw [seq_diagline_eq_matrix emb eps dim hdim, gen_diagline_runs]
+
+/-- in sequential mode `recurrence_rate` is `Σ l·P_v(l) / N²`; without missing-value handling
+its numerator is the number of recurrence points of the matrix that is never stored -/
+theorem seq_recurrence_rate_num (emb : List (List V)) (eps : Rat) (dim : Nat)
+    (hdim : ∀ r ∈ emb, r.length = dim) :
+    wsum (StructC08._vertline_dist_sequential emb.length (List.replicate emb.length 0) (accE emb)
+        (some eps) dim)
+      = countIn (rowsOf (fixedThreshold .supremum emb eps false) true emb.length) := by
+  rw [seq_vertline_eq_matrix emb eps dim hdim, gen_vertline_eq, vert_accounts_black]
+
+/-- non-vacuity: the hypotheses are met by a 3-sample series with a NaN in the middle, whose
+mask is non-trivial (`Rat` does not reduce under `decide`: the generated sequential kernels are
+executed by the driver on such data in every run) -/
+example : (∀ r ∈ [[some (0 : Rat)], [none], [some 2]], r.length = 1) ∧
+    missingMask [[some (0 : Rat)], [none], [some 2]] = [false, true, false] := by
+  constructor
+  · simp
+  · decide
+example : StructC08._diagline_dist 3 [0, 0, 0]
+    (accR [[true, true, false], [true, true, true], [false, true, true]]) = [0, 1, 0] := by decide
+
+end Generated
+
+/-! ## Round 3 — bootstrap of the line histograms (`resample_diagline_dist`,
+`resample_vertline_dist`): invariants for every stream of `random.random()` values -/
+section Bootstrap
+open Pyunicorn.Generated
+
+/-- what `random.random()` guarantees for each pair of draws -/
+def UnitDraws (draws : List (Rat × Rat)) : Prop := ∀ u ∈ draws, 0 ≤ u.1 ∧ u.1 < 1 ∧ 0 ≤ u.2
+
+theorem maxLen_le_length (h : List Nat) : maxLen h ≤ h.length := by
+  rcases maxLen_spec h with ⟨h0, _⟩ | ⟨k, hk, hm, _, _⟩ <;> omega
+
+/-- `L_max == 0` (no line at all): the histogram itself is returned, no draw is made -/
+theorem resample_zero (hist : List Nat) (M : Nat) (draws : List (Rat × Rat))
+    (h : maxLen hist = 0) : resample hist M draws = hist := by
+  simp [resample, h]
+
+private theorem sum_replicate_zero (n : Nat) : (List.replicate n 0).sum = 0 := by
+  induction n with
+  | zero => rfl
+  | succ n ih => simp [List.replicate_succ, ih]
+
+private theorem getD_replicate_zero (n x : Nat) : (List.replicate n 0).getD x 0 = 0 := by
+  rw [List.getD_eq_getElem?_getD]
+  cases h : (List.replicate n 0)[x]? with
+  | none => rfl
+  | some v =>
+    have := List.mem_of_getElem? h
+    simp only [List.mem_replicate] at this
+    simp [this.2]
+
+private theorem take_len (hist : List Nat) : (hist.take (maxLen hist)).length = maxLen hist := by
+  rw [List.length_take]; exact Nat.min_eq_left (maxLen_le_length hist)
+
+private theorem inRange_of_unit (hist : List Nat) (draws : List (Rat × Rat))
+    (hL : maxLen hist ≠ 0) (hd : UnitDraws draws) :
+    InRange ((hist.take (maxLen hist)).length : Nat) (hist.take (maxLen hist)).length draws := by
+  intro u hu
+  have := hd u hu
+  rw [take_len]
+  exact floor_index_in_range u.1 (maxLen hist) this.1 this.2.1 (Nat.pos_of_ne_zero hL)
+
+/-- **every draw stream**: the resampled histogram has the length of the original, holds exactly
+as many lines as draws were accepted and never more than `M` (exactly `M` once the loop has
+run to its end: `i = M`). -/
+theorem resample_count (hist : List Nat) (M : Nat) (draws : List (Rat × Rat))
+    (hL : maxLen hist ≠ 0) (hd : UnitDraws draws) :
+    (resample hist M draws).length = hist.length ∧
+    (resample hist M draws).sum = (rejectionSampling (hist.take (maxLen hist)) M draws).i ∧
+    (rejectionSampling (hist.take (maxLen hist)) M draws).i ≤ M := by
+  have hc := rejLoop_count (normDist (hist.take (maxLen hist)))
+    ((hist.take (maxLen hist)).length : Nat) M draws
+    ⟨0, List.replicate (hist.take (maxLen hist)).length 0⟩
+    (by simpa using inRange_of_unit hist draws hL hd) (Nat.zero_le _)
+  simp only [List.length_replicate, sum_replicate_zero, Nat.add_zero, Nat.zero_add] at hc
+  have hle := maxLen_le_length hist
+  simp only [resample, rejectionSampling, beq_iff_eq, if_neg hL, List.length_append,
+    List.length_replicate, List.sum_append, sum_replicate_zero, Nat.add_zero]
+  refine ⟨?_, hc.1, hc.2.2.2⟩
+  rw [hc.2.1, take_len]; omega
+
+/-- **every draw stream**: resampling never creates a line length that the original histogram
+does not have (so `max_*length`, and the support of the entropies, can only shrink). -/
+theorem resample_support (hist : List Nat) (M : Nat) (draws : List (Rat × Rat))
+    (hd : UnitDraws draws) (x : Nat) (hx : hist.getD x 0 = 0) :
+    (resample hist M draws).getD x 0 = 0 := by
+  by_cases hL : maxLen hist = 0
+  · rw [resample_zero hist M draws hL]; exact hx
+  · have hc := rejLoop_count (normDist (hist.take (maxLen hist)))
+      ((hist.take (maxLen hist)).length : Nat) M draws
+      ⟨0, List.replicate (hist.take (maxLen hist)).length 0⟩
+      (by simpa using inRange_of_unit hist draws hL hd) (Nat.zero_le _)
+    simp only [List.length_replicate] at hc
+    have hlen := hc.2.1
+    simp only [resample, rejectionSampling, beq_iff_eq, if_neg hL]
+    by_cases hxl : x < maxLen hist
+    · rw [List.getD_eq_getElem?_getD, List.getElem?_append_left (by rw [hlen, take_len]; exact hxl),
+        ← List.getD_eq_getElem?_getD]
+      rw [rejLoop_support _ _ _ _ _ (fun u hu => ⟨(inRange_of_unit hist draws hL hd u hu).1,
+        (hd u hu).2.2⟩) x]
+      · exact getD_replicate_zero _ _
+      · have : (hist.take (maxLen hist))[x]?.getD 0 = 0 := by
+          rw [List.getElem?_take_of_lt hxl, ← List.getD_eq_getElem?_getD, hx]
+        simp [normDist, this]
+    · rw [List.getD_eq_getElem?_getD, List.getElem?_append_right (by rw [hlen, take_len]; omega)]
+      exact (List.getD_eq_getElem?_getD ..).symm.trans (getD_replicate_zero _ _)
+
+/-- non-vacuity: two accepted draws at length 2, one rejected at length 1 (probabilities 1/3, 2/3) -/
+example : UnitDraws [(1/2, 0), (0, 1/2), (3/4, 1/2)] := by
+  intro u hu
+  simp only [List.mem_cons, List.not_mem_nil, or_false] at hu
+  rcases hu with rfl | rfl | rfl <;> norm_num
+
+end Bootstrap
 
 /-! ### non-vacuity -/
 example : (scalars 2 [3, 2, 0, 1]).ratioNum = 8 ∧ (scalars 2 [3, 2, 0, 1]).ratioDen = 11 ∧
